@@ -13,6 +13,9 @@
   * `ehStep_spec`, `ehRun_spec`   Ehrenfest step/run: label constant, ρ valid along the run, logged potential = Re tr(ρ' H')  (C08, C02)
   * `cumStep_common`, `cumStep_event`   cumulative-FSSH step: clock, ρ' = expStep ρ, events vs state                     (C09, C04)
 
+  * `afHop_common`, `afCollapse_spec`, `afStep_rho`, `pureState_valid`   whole A-FSSH step: with a collapse ρ is the (valid) pure
+                         state of the label active AFTER the step's hop attempt and both moments vanish; otherwise ρ' = expStep ρ  (C11, C02)
+
   The tie to the code is the whole-run correspondence (`harness/runcommon.py`, op `shrun`): the real TrajectorySH is run,
   what it reads from outside at each step is recorded, and the model has to reproduce every snapshot and every event.
 -/
@@ -20,6 +23,7 @@ import MudProof.Properties.C01
 import MudProof.Properties.C03
 import MudProof.Properties.C02
 import MudModel.Step
+import MudModel.AStep
 namespace Mud.StepThm
 open Mud Matrix
 
@@ -216,5 +220,69 @@ theorem cumStep_event (m : Fin n → ℝ) (dt : ℝ) (eLast : Elec ℝ N n) (inp
   · split
     · split <;> simp
     · simp
+
+/-! ### A-FSSH (MudModel/AStep.lean) -/
+
+/-- the collapse part of an A-FSSH step: with a recorded collapse the density matrix is the pure state of the label that is
+    active THEN (after the step's own hop attempt) and both moment tensors are zero in every dimension; without one nothing
+    changes; the label itself is never changed by the collapse -/
+theorem afCollapse_spec (dt : ℝ) (inp : AStepIn ℝ N n) (a : AF ℝ N n) :
+    ((afCollapse dt inp a).2 ≠ [] →
+      (afCollapse dt inp a).1.s.rho = pureState a.s.state ∧
+      (∀ x, (afCollapse dt inp a).1.delR.get x = zeroMoment) ∧ (∀ x, (afCollapse dt inp a).1.delP.get x = zeroMoment)) ∧
+    ((afCollapse dt inp a).2 = [] → (afCollapse dt inp a).1 = a) ∧
+    (afCollapse dt inp a).1.s.state = a.s.state := by
+  simp only [afCollapse]
+  split
+  · rename_i he
+    simp only [List.isEmpty_iff] at he
+    simp [he]
+  · rename_i he
+    simp only [List.isEmpty_iff] at he
+    simp [he]
+
+/-- the hop part: clock, step counter, `last_velocity`, and ρ after it is `expStep` of ρ before it whatever the hop decision -/
+theorem afHop_common (m : Fin n → ℝ) (dt : ℝ) (ePrev eLast : ElecA ℝ N n) (inp : AStepIn ℝ N n) (a : AF ℝ N n) :
+    (afHop m dt ePrev eLast inp a).1.s.time = a.s.time + dt ∧ (afHop m dt ePrev eLast inp a).1.s.nsteps = a.s.nsteps + 1 ∧
+    (afHop m dt ePrev eLast inp a).1.s.vlast = a.s.v ∧
+    (afHop m dt ePrev eLast inp a).1.s.rho = expStep inp.diags inp.coeff dt a.s.rho := by
+  simp only [afHop]
+  split
+  · simp
+  · split
+    · split <;> simp
+    · simp
+
+/-- **whole A-FSSH step**: with a collapse ρ is the pure ACTIVE state (active after the step) and the moments are zero;
+    without one ρ is `expStep` of ρ before the step -/
+theorem afStep_rho (m : Fin n → ℝ) (dt : ℝ) (ePrev eLast : ElecA ℝ N n) (inp : AStepIn ℝ N n) (a : AF ℝ N n) :
+    ((afStep m dt ePrev eLast inp a).2.1.2 ≠ [] →
+      (afStep m dt ePrev eLast inp a).1.s.rho = pureState (afStep m dt ePrev eLast inp a).1.s.state ∧
+      (∀ x, (afStep m dt ePrev eLast inp a).1.delR.get x = zeroMoment) ∧
+      (∀ x, (afStep m dt ePrev eLast inp a).1.delP.get x = zeroMoment)) ∧
+    ((afStep m dt ePrev eLast inp a).2.1.2 = [] →
+      (afStep m dt ePrev eLast inp a).1.s.rho = expStep inp.diags inp.coeff dt a.s.rho) := by
+  have hc := afCollapse_spec dt inp (afHop m dt ePrev eLast inp a).1
+  have hh := afHop_common m dt ePrev eLast inp a
+  simp only [afStep]
+  refine ⟨fun h => ?_, fun h => ?_⟩
+  · have := hc.1 h
+    rw [hc.2.2]
+    exact this
+  · rw [hc.2.1 h]
+    exact hh.2.2.2
+
+/-- the pure state the collapse writes is a valid electronic state on the active label (`C02.collapse_pure`) -/
+theorem pureState_valid (k : Fin N) :
+    toM (pureState (α := ℝ) k) * toM (pureState k) = toM (pureState k) ∧ (toM (pureState (α := ℝ) k)).IsHermitian ∧
+    (toM (pureState (α := ℝ) k)).trace = 1 := by
+  have hp := C02.collapse_pure k
+  simp only at hp
+  have e : toM (pureState (α := ℝ) k) = Matrix.of (fun i j => if i = k ∧ j = k then (1 : ℂ) else 0) := by
+    ext i j
+    simp only [pureState, toM_apply, Tab.get_ofFn, of_apply]
+    split <;> apply Complex.ext <;> simp
+  rw [e]
+  exact hp
 
 end Mud.StepThm
